@@ -152,6 +152,12 @@ class _Hist:
                 @modifiers.kwoargs('b')
                 def m(self, a, b=1):
                     return (self, a, b)
+        elif variant == 'pokself':
+            # binding consumes the whole selection: the re-binding getter hands the bound method back as it is (D91)
+            class C(object):
+                @modifiers.posoargs(end='self')
+                def m(self, a, b=1):
+                    return (self, a, b)
         elif variant == 'pokpos':
             class C(object):
                 @modifiers.autokwoargs
